@@ -150,6 +150,13 @@ func c11One(c *Ctx, op, src string, cands []string, extra []string, local map[st
 			local["evaluations"]++
 		}
 		local["rewritten-and-equal"]++
+		// the caller goes on to edit its own, rewritten statement: every literal
+		// of it. Statements rewritten later must not see that.
+		influxql.WalkFunc(after, func(n influxql.Node) {
+			if l, ok := n.(*influxql.StringLiteral); ok {
+				l.Val += "~edited"
+			}
+		})
 	})
 	if p {
 		d := det(fmt.Sprint(pv))
@@ -350,12 +357,12 @@ func checkC11(c *Ctx) (string, bool, []string) {
 		"^([a-j]|k)[a-j]$", "^[a-d][a-e][a-e]$", "^[a-d][a-e]([a-e]|x)$", "^(a|b)(c|d)(e|f)(g|h)(i|j)(k|l)(m|n)$", "^(a|b)(c|d)(e|f)(g|h)(i|j)(k|l)$", "^[a-z][a-c]$", "^[a-z]$", "^[a-zA-Z0-9]$"}
 	// whole sources that do not fit the prefix x body x suffix scheme: anchors
 	// inside the branches of a top-level alternation, in groups, repeated
-	whole := []string{"^$|^a$", "^a$|^$", "^a$|^b$", "^(a|b)$|^$", "^a$|^$|^b$", "^$|^$", "^a|b$", "^a$|b", "a|^b$", "(^a$)|(^b$)", "(^a$|^$)", "^(^a$|^b$)$", "(?:^a$)", "^(?:a$|b$)", "^(?:^a|^b)$",
+	whole := []string{"^$", "^$|^a$", "^a$|^$", "^a$|^b$", "^(a|b)$|^$", "^a$|^$|^b$", "^$|^$", "^a|b$", "^a$|b", "a|^b$", "(^a$)|(^b$)", "(^a$|^$)", "^(^a$|^b$)$", "(?:^a$)", "^(?:a$|b$)", "^(?:^a|^b)$",
 		"^a$|^a$", "^ab$|^a$|^$", "^$|a", "^(a|^$)$", "(^)(a)($)", "^a$$|^^b$", "\\Aa\\z|\\Ab\\z", "^a\\z|\\Ab$", "(?i)^a$|^b$", "^a$|(?i)^b$", "(?m)^a$|^b$", "^[ab]$|^c$", "^a?$|^b$", "^a{2}$|^$",
 		// class ranges that cross a UTF-8 width boundary (1|2, 2|3, 3|4 bytes)
 		"^[\\x{7e}-\\x{81}]$", "^srv[x-\\x{a1}]$", "^[\\x{7fd}-\\x{802}]x$", "^[\\x{fffe}-\\x{10001}]$", "^[a\\x{80}\\x{800}\\x{10000}]$", "^[\\x{7f}-\\x{9f}]{2}$",
 		// alternations whose branches stand for several strings each, around the 100-literal limit
-		"^(a[a-z]|b[a-z]|c[a-z]|d[a-z])$", "^(a[a-y]|b[a-y]|c[a-y]|d[a-y])$", "^(rack[0-8][0-9]|spare[0-9][0-9])$", "^([a-j][a-i]|[a-j])$", "^([a-j][a-i]|[a-k])$", "^(x|[a-j][a-j])$", "^([a-j][a-j]|x)$"}
+		"^(a[a-z]|b[a-z]|c[a-z]|d[a-z])$", "^(a[a-y]|b[a-y]|c[a-y]|d[a-y])$", "^(rack[0-8][0-9]|spare[0-9][0-9])$", "^([a-j][a-i]|[a-j])$", "^([a-j][a-i]|[a-k])$", "^(x|[a-j][a-j])$", "^([a-j][a-j]|x)$", "^$", "^()$", "^$"}
 	// literals shaped like timestamps, judged also on other spellings of the
 	// same instant (to the regex they are different strings)
 	dateCands := []string{"2019-01-01", "2019-01-01T00:00:00Z", "2019-01-01 00:00:00", "2019-01-01T00:00:00+00:00", "2019-01-01T01:00:00+01:00", "2019-1-1", "2019-01-01T00:00:00.000Z", "1546300800000000000"}
